@@ -279,6 +279,12 @@ func (ix *Index) ReceiveBlob(ctx context.Context, blobRef blob.Ref, source io.Re
 			// successfully recorded that the blob isn't
 			// indexed, but we'll reindex it later once
 			// the dependent blobs arrive.
+			//
+			// The blob itself has arrived, though: blobs that were
+			// waiting only to fetch it (a file for its chunk, say) can
+			// go ahead now; whether they come before or after it must
+			// not matter.
+			ix.noteBlobIndexedLocked(blobRef)
 			return sbr, nil
 		}
 		return blob.SizedRef{}, err
